@@ -355,4 +355,85 @@ theorem readXrffH_valid (o : NumOracle F) (hook : Hook) (doc : XDoc) (df : DF F)
                 have hvalid : Valid df' := by unfold Valid; rw [hv, hc]
                 exact ⟨hvalid, valid_equalInputs _ hvalid, by simp [hc]⟩
 
+/-- the labels `is_valid` accepts: no classes at all (regression), or every output is a class id below the
+    number of classes -/
+def LabelsOK (df : DF F) : Prop :=
+  df.classes.length = 0 ∨ ∀ e ∈ df.examples, ∃ l : Int, e.output = .int l ∧ 0 ≤ l ∧ l < df.classes.length
+
+theorem examplesValid_spec (cl n : Nat) : ∀ es : List (Example F), examplesValid cl n es = .ok true ↔
+    (∀ e ∈ es, e.input.length = n) ∧
+    (cl = 0 ∨ ∀ e ∈ es, ∃ l : Int, e.output = .int l ∧ 0 ≤ l ∧ l < cl) := by
+  intro es
+  induction es with
+  | nil => simp [examplesValid, pure, Except.pure]
+  | cons a es ih =>
+    unfold examplesValid
+    by_cases hlen : a.input.length = n
+    · simp only [hlen, bne_self_eq_false, Bool.false_eq_true, if_false]
+      by_cases hcl : cl = 0
+      · simp only [hcl, if_true] at ih ⊢
+        rw [ih]
+        simp [hlen]
+      · simp only [hcl, if_false]
+        cases ho : a.output with
+        | int l =>
+          simp only [label, ho, pure, Except.pure, bind, Except.bind]
+          by_cases hl : l < 0 ∨ (cl : Int) ≤ l
+          · have hl' : (decide (l < 0) || decide (l ≥ (cl : Int))) = true := by
+              rcases hl with h | h <;> simp [h]
+            simp only [hl', if_true]
+            constructor
+            · intro h; cases h
+            · intro h
+              rcases h.2 with h0 | h0
+              · first | exact h0.elim | exact absurd h0 hcl
+              · obtain ⟨l', hl1, hl2, hl3⟩ := h0 a (by simp)
+                rw [ho] at hl1
+                cases hl1
+                omega
+          · have hl' : (decide (l < 0) || decide (l ≥ (cl : Int))) = false := by
+              simp only [not_or, Int.not_lt, Int.not_le] at hl
+              simp [hl.1, hl.2]
+            simp only [hl', Bool.false_eq_true, if_false]
+            rw [ih]
+            simp only [hcl, false_or, List.mem_cons, forall_eq_or_imp, hlen, true_and]
+            constructor
+            · rintro ⟨h1, h2⟩
+              refine ⟨h1, ⟨l, ho, by omega, by omega⟩, h2⟩
+            · rintro ⟨h1, _, h2⟩
+              exact ⟨h1, h2⟩
+        | void =>
+          simp only [label, ho, throw, throwThe, MonadExceptOf.throw, bind, Except.bind]
+          constructor
+          · intro h; cases h
+          · intro h
+            rcases h.2 with h0 | h0
+            · first | exact h0.elim | exact absurd h0 hcl
+            · obtain ⟨l', hl1, _⟩ := h0 a (by simp)
+              rw [ho] at hl1; cases hl1
+        | dbl x =>
+          simp only [label, ho, throw, throwThe, MonadExceptOf.throw, bind, Except.bind]
+          constructor
+          · intro h; cases h
+          · intro h
+            rcases h.2 with h0 | h0
+            · first | exact h0.elim | exact absurd h0 hcl
+            · obtain ⟨l', hl1, _⟩ := h0 a (by simp)
+              rw [ho] at hl1; cases hl1
+        | str x =>
+          simp only [label, ho, throw, throwThe, MonadExceptOf.throw, bind, Except.bind]
+          constructor
+          · intro h; cases h
+          · intro h
+            rcases h.2 with h0 | h0
+            · first | exact h0.elim | exact absurd h0 hcl
+            · obtain ⟨l', hl1, _⟩ := h0 a (by simp)
+              rw [ho] at hl1; cases hl1
+    · have : (a.input.length != n) = true := by simpa using hlen
+      simp only [this, if_true, pure, Except.pure]
+      constructor
+      · intro h; cases h
+      · intro h; exact absurd (h.1 a (by simp)) hlen
+
+
 end Vita.C10
